@@ -7,7 +7,7 @@ the symbolic value layer (pyvc.values) from the parameter / local values the eng
 import z3
 
 from . import state as st
-from .values import (FIN, NONE, SArr, SBool, SFloat, SFunc, SInt, SList, SRecord, STuple, Unsupported,
+from .values import (FIN, NONE, GList, SArr, SBool, SFloat, SFunc, SInt, SList, SRecord, STuple, Unsupported,
                      And, Implies, fresh_name, int_sort, to_bool, to_float, to_int)
 
 # ------------------------------------------------------------------ sort specs
@@ -54,6 +54,19 @@ class ListOf(Sort):
     def __init__(self, item, n):
         self.item = item
         self.n = n
+
+
+class GListOf(Sort):
+    """python list of symbolic length of ints (arity None) or int tuples"""
+
+    def __init__(self, arity=None):
+        self.arity = arity
+
+    def make(self, state, name):
+        g = GList.fresh(name, self.arity)
+        lst = state.new_list(())
+        state.lists[lst.lid] = g
+        return lst, [g.n >= 0]
 
 
 class Rec(Sort):
@@ -320,10 +333,26 @@ def wrap(v, sink):
     if isinstance(v, STuple):
         return tuple(wrap(x, sink) for x in v.items)
     if isinstance(v, SList):
-        return [wrap(x, sink) for x in sink.lists[v.lid]]
+        content = sink.lists[v.lid]
+        if isinstance(content, GList):
+            return GListView(content)
+        return [wrap(x, sink) for x in content]
     if isinstance(v, SRecord):
         return RecView(v, sink)
     return v
+
+
+class GListView:
+    """what a contract sees of a python list of symbolic length: .n and item k (an int or a tuple of ints)"""
+
+    def __init__(self, g):
+        self.g = g
+        self.n = g.n
+        self.cols = g.cols      # raw z3 arrays (for spec functions over the whole list)
+
+    def __getitem__(self, k):
+        v = self.g.get(k)
+        return tuple(v.items) if isinstance(v, STuple) else v
 
 
 class RecView:
@@ -392,7 +421,7 @@ class Contract:
     def __init__(self, target, params, returns=None, requires=None, ensures=None, modifies=(),
                  loops=None, int_mode='math', merge=True, configs=None, trusted=False, note='',
                  raises=None, pure=True, inline=False, witnesses=None, props=(), self_rec=None,
-                 nothrow=True, cut_asserts=None, path_split=False, lemmas_used=(), flags=(), fuel=1, solver_opts=None, gen=None, stand_in=(), tactic=None, post_hints=None, branches=None, post_using=None):
+                 nothrow=True, cut_asserts=None, path_split=False, lemmas_used=(), flags=(), fuel=1, solver_opts=None, gen=None, stand_in=(), tactic=None, post_hints=None, branches=None, post_using=None, glists=None):
         self.target = target
         self.params = params if callable(params) else list(params)   # [(name, Sort)] or callable(config)->list
         self.returns = returns              # Sort or callable(ctx)->Sort
@@ -400,6 +429,7 @@ class Contract:
         self.ensures = ensures
         self.modifies = tuple(modifies)
         self.loops = loops or {}
+        self.glists = glists or {}          # {local name: None | arity}: python lists of symbolic length (ints / int tuples)
         self.int_mode = int_mode
         self.merge = merge
         self.configs = configs              # list of dicts (concrete parameter values) or None
